@@ -116,6 +116,16 @@ func buildHostTree(kind string) (*hostTree, error) {
 		}
 		add("maxextent.bin", mb)
 	}
+	if kind == "contig66" {
+		nbig = 5
+		// one contiguous file of more than 65535 blocks of 1 KiB: several maximum-length extents that follow one another
+		// without a gap on the disk (whoever joins neighbouring extents must not do it in 16 bits)
+		cb := randomBytes(2021, 66<<20+50<<10)
+		for i := range cb {
+			cb[i] |= 1
+		}
+		add("contig66.bin", cb)
+	}
 	if kind == "special" {
 		nbig = 30
 		// a sparse file larger than 4 GiB: data at 0 and just beyond 4 GiB, holes in between and behind
@@ -266,6 +276,10 @@ func runMkfsCase(c *mkfsCase) (sig, msg, outcome string) {
 	if c.Tree == "maxextent" {
 		size = "64M"
 		rootOwner += ",num_backup_sb=0" // with sparse_super2: no backup superblocks, the free space is one contiguous run
+	}
+	if c.Tree == "contig66" {
+		size = "128M"
+		rootOwner += ",num_backup_sb=0"
 	}
 	feats := append([]string{}, c.Features...)
 	fstype := "ext4"
@@ -528,6 +542,8 @@ func runMkfsCase(c *mkfsCase) (sig, msg, outcome string) {
 
 func fileClass(p string) string {
 	switch {
+	case strings.HasPrefix(p, "contig66"):
+		return "contiguous-66MiB"
 	case strings.HasPrefix(p, "maxextent"):
 		return "max-length-extent"
 	case strings.HasPrefix(p, "holes/"):
@@ -582,6 +598,7 @@ func enumC20(quick bool) []mkfsCase {
 	}
 	// one extent of the maximum length (32768 blocks)
 	cs = append(cs, mkfsCase{BlockSize: 1024, InodeSize: 256, Features: []string{"metadata_csum", "sparse_super2", "^has_journal"}, FSType: "ext4", Tree: "maxextent"})
+	cs = append(cs, mkfsCase{BlockSize: 1024, InodeSize: 256, Features: []string{"metadata_csum", "sparse_super2", "^has_journal", "^resize_inode"}, FSType: "ext4", Tree: "contig66"})
 	// a directory large enough for a hash tree with an interior level
 	cs = append(cs, mkfsCase{BlockSize: 1024, InodeSize: 256, Features: []string{"dir_index"}, FSType: "ext4", Tree: "deep-htree"})
 	if !quick {
@@ -612,7 +629,7 @@ func C20(r *ev.Run) {
 	r.Set("evaluations", int64(done))
 	r.Set("distinct_nontrivial", int64(ok.n()))
 	r.Set("distinct_outcomes", outcomes.snapshot())
-	r.Set("rule", "images built by the reference tools: a host tree (400-entry directory turned into a hash tree by e2fsck -fD, a file of 200 alternating data/hole blocks, a file of 130 data blocks at a stride of 16 blocks (index root, holes much wider than the data), a file behind a 1 MiB hole, plain files, symlinks of 59/60/200 bytes and a relative one, in-inode and block xattrs via debugfs ea_set, odd modes/owners with different upper halves/post-2038 times via debugfs sif; plus a 2000-entry directory of 180-character names whose hash tree has an interior level; plus a tree with a sparse file of 4 GiB+40 KiB (data at 0 and just beyond 4 GiB, read through probe windows in and around the holes) and a 200-entry directory from which a run of 80 neighbouring entries was removed with debugfs rm after indexing, hashed and linear; plus a contiguous 32 MiB file that e2fsck -E bmap2extent turns into one extent of the maximum length 32768) written by mke2fs -d for block size {1K,2K,4K} x inode size {128,256} x every subset (quick: all-on, all-off, single-on, single-off) of {64bit, flex_bg, metadata_csum, dir_index, huge_file, sparse_super2, has_journal} plus ext2-style images without extents; each image verified clean with e2fsck first. The library must refuse the image, return an error for what it cannot read, or report exactly what was put in: tree, bytes (holes as zeros), sizes, modes, owners, times, link targets, xattrs. non-trivial = distinct images that mke2fs accepted and that the library opened, refused or walked")
+	r.Set("rule", "images built by the reference tools: a host tree (400-entry directory turned into a hash tree by e2fsck -fD, a file of 200 alternating data/hole blocks, a file of 130 data blocks at a stride of 16 blocks (index root, holes much wider than the data), a file behind a 1 MiB hole, plain files, symlinks of 59/60/200 bytes and a relative one, in-inode and block xattrs via debugfs ea_set, odd modes/owners with different upper halves/post-2038 times via debugfs sif; plus a 2000-entry directory of 180-character names whose hash tree has an interior level; plus a tree with a sparse file of 4 GiB+40 KiB (data at 0 and just beyond 4 GiB, read through probe windows in and around the holes) and a 200-entry directory from which a run of 80 neighbouring entries was removed with debugfs rm after indexing, hashed and linear; plus a contiguous 32 MiB file that e2fsck -E bmap2extent turns into one extent of the maximum length 32768; plus a contiguous file of 66 MiB on 1 KiB blocks: more than 65535 blocks in neighbouring maximum-length extents) written by mke2fs -d for block size {1K,2K,4K} x inode size {128,256} x every subset (quick: all-on, all-off, single-on, single-off) of {64bit, flex_bg, metadata_csum, dir_index, huge_file, sparse_super2, has_journal} plus ext2-style images without extents; each image verified clean with e2fsck first. The library must refuse the image, return an error for what it cannot read, or report exactly what was put in: tree, bytes (holes as zeros), sizes, modes, owners, times, link targets, xattrs. non-trivial = distinct images that mke2fs accepted and that the library opened, refused or walked")
 	r.Set("exhaustive", done == len(cases))
 	r.Assume("e2fsprogs 1.47.0 builds the reference images; a refusal or an error is always acceptable, only silent wrong data is a violation")
 }
